@@ -447,6 +447,11 @@ impl GraphStore {
         r matches Ok(e) ==> final(self).edge_added(old(self), source, target, e),      //#adds_exactly_this_edge
         r is Err ==> final(self).adjacency_same(old(self)),      //#refused_changes_nothing
         final(self).no_dangling() && final(self).ids_fresh(),      //#invariants_kept
+        r matches Ok(e) ==> final(self).edge_type_index@.contains_key(edge_type)
+            && final(self).edge_type_index@[edge_type]@ == (if old(self).edge_type_index@.contains_key(edge_type) { old(self).edge_type_index@[edge_type]@ } else { Set::<EdgeId>::empty() }).insert(e),      //#indexed_under_its_type
+        r is Ok ==> forall|t: EdgeType| t != edge_type ==> (#[trigger] final(self).edge_type_index@.contains_key(t)) == old(self).edge_type_index@.contains_key(t)
+            && (old(self).edge_type_index@.contains_key(t) ==> final(self).edge_type_index@[t] == old(self).edge_type_index@[t]),      //#other_types_index_untouched
+        r is Err ==> final(self).edge_type_index@ == old(self).edge_type_index@,      //#refused_leaves_the_type_index
         r is Ok ==> (sorted_by_nbr(old(self).outgoing@[source.0 as int]@) ==> sorted_by_nbr(final(self).outgoing@[source.0 as int]@))
             && (sorted_by_nbr(old(self).incoming@[target.0 as int]@) ==> sorted_by_nbr(final(self).incoming@[target.0 as int]@)),      //#sorted_buffers_stay_sorted
 //@closure unwrap_or_else#1 (p: usize) -> (o: usize) ensures o == p
